@@ -496,6 +496,9 @@ class Coordinator(object):
                     topic_partitions=topic_partitions,
                 )
 
+        if self._stopping:
+            # stop() began while the leader was loading partition metadata
+            return
         self._state = "[syncing]"
         sync_response = yield self.send_sync_group_request(assignments)
         if not sync_response or self._stopping:
